@@ -255,6 +255,46 @@ def gen_cases(ctx):
             cases.append(c)
     for rep in range(ctx.n(1, 4)):
         cases += gen_big(rng)
+    # every post-processing configuration through the libjpeg API: quantization (none / 1-pass / 2-pass) x dither
+    # x scale x subsampling x max_lines, row-pointer array and every row ending at a guard page; RGB565 x merged
+    # upsampling x jpeg_crop_scanline x jpeg_skip_scanlines with spare-row deliveries (odd max_lines)
+    for rep in range(ctx.n(1, 8)):
+        for quant in (0, 1, 2):
+            for dither in (0, 1, 2):
+                for ss in (0, 1, 2, 4, 5, 6):
+                    for mx in (1, 2, 3, 8, rng.range(4, 7)):
+                        sf = rng.choice(SF) if rng.chance(1, 2) else (1, 1)
+                        cases.append("pp w=%d h=%d ss=%d src=ycc quant=%d dither=%d cs=%d max=%d num=%d den=%d fast=%d ncol=%d" % (
+                            rng.range(1, 40), rng.choice([5, 7, 9, 15, 17, 19, 33, 35]), ss, quant, dither, rng.choice([0, 0, 3] if quant else [0, 0, 2, 3]), mx,
+                            sf[0], sf[1], rng.below(2), rng.choice([8, 64, 256])))
+        # 2-pass quantization: every residue of the output height modulo the strip height (max_v_samp_factor) x max_lines,
+        # unscaled and scaled (output_height < image_height)
+        for ss in (6, 2, 4, 0):
+            for hh in range(5, 13):
+                for mx in (1, 2, 3, 5):
+                    for sf in ((1, 1), (1, 2), (5, 8)):
+                        h = hh if sf == (1, 1) else next(x for x in range(hh * sf[1] // sf[0] - 2, 400) if scaled(x, sf) == hh)
+                        cases.append("pp w=%d h=%d ss=%d src=ycc quant=2 dither=%d cs=0 max=%d num=%d den=%d fast=%d ncol=%d" % (
+                            rng.range(1, 24), h, ss, rng.below(3), mx, sf[0], sf[1], rng.below(2), rng.choice([16, 256])))
+        # merged 4:2:0 upsampling (do_fancy_upsampling = 0) x jpeg_crop_scanline x jpeg_skip_scanlines x max_lines: spare-row
+        # deliveries (max_lines 1, or an odd number of rows skipped) into exact-size rows, RGB565 and the other colour spaces
+        for cs in (1, 0, 2):
+            for mx in (1, 2, 3):
+                for sk in (0, 1, 3):
+                    for cx, cw in ((0, 0), (16, 9), (0, 7), (16, rng.range(1, 20)), (32, 1)):
+                        cases.append("pp w=%d h=%d ss=2 src=ycc quant=0 dither=%d cs=%d max=%d num=1 den=1 fast=1 cx=%d cw=%d sk=%d" % (
+                            rng.range(40, 70), rng.choice([9, 17, 19]), rng.below(2), cs, mx, cx, cw, sk))
+        for cs in (1, 0, 2):
+            for ss in (2, 1, 4, 0):
+                for mx in (1, 2, 3, 5):
+                    for fast in (1, 0):
+                        w = rng.range(33, 80)
+                        al = MCUW[ss]
+                        cx = rng.choice([0, al, 2 * al, al + rng.below(al)])
+                        cw = 0 if rng.chance(1, 4) else rng.range(1, w - cx)
+                        cases.append("pp w=%d h=%d ss=%d src=%s quant=0 dither=%d cs=%d max=%d num=1 den=1 fast=%d cx=%d cw=%d sk=%d" % (
+                            w, rng.choice([9, 17, 19, 33]), ss, rng.choice(["ycc", "ycc", "gray"]), rng.below(2), cs, mx, fast, cx, cw,
+                            rng.choice([0, 0, 1, 2, 3, 5])))
     # RGB565 output (jdcol565.c, all six converters) through jpeg_read_scanlines with >= 2 lines per call, every
     # row in its own guarded buffer, row pointers 2 (mod 4) and 0 (mod 4), widths 1..5 and larger, v_samp 1/2/4
     for rep in range(ctx.n(1, 6)):
@@ -315,7 +355,7 @@ def documented_rows(line):
     kind = line.split()[0]
     api = k.get("api", "")
     out = {}
-    if kind in ("rs", "big", "kv", "r565"):
+    if kind in ("rs", "big", "kv", "r565", "pp"):
         return out
     if kind == "hist":
         x_, y_, w_, h_ = stored_region(k)
@@ -429,6 +469,12 @@ def describe(line, level):
     kind = line.split()[0]
     if kind == "kern":
         return "SIMD kernel %s/%s, %s columns, guard side %s" % (k.get("k"), k.get("fn"), k.get("n"), "high" if k.get("side") == "1" else "low")
+    if kind == "pp":
+        return ("libjpeg API: %sx%s subsamp=%s %s source, scale %s/%s, quantize=%s (0 none, 1 one-pass, 2 two-pass) dither=%s out_color_space=%s "
+                "(0 RGB, 1 RGB565, 2 RGBX, 3 GRAY) do_fancy_upsampling=%s, jpeg_crop_scanline(x=%s,w=%s) jpeg_skip_scanlines(%s), jpeg_read_scanlines(max_lines=%s) "
+                "into exact-size rows and a row-pointer array that both end at guard pages, simd=%s" % (
+                    k.get("w"), k.get("h"), k.get("ss"), k.get("src"), k.get("num", 1), k.get("den", 1), k.get("quant"), k.get("dither"), k.get("cs"),
+                    "0" if k.get("fast") == "1" else "1", k.get("cx", 0), k.get("cw", 0), k.get("sk", 0), k.get("max"), level))
     if kind == "r565":
         return ("jpeg_read_scanlines(max_lines=%s) with out_color_space=JCS_RGB565 (%s source, dither=%s, do_fancy_upsampling=%s), %sx%s subsamp=%s, "
                 "every row pointer = %s (mod 4) and ending at a guard page, simd=%s" % (
@@ -489,6 +535,11 @@ def judge(ctx, line, level, impl):
         ctx.violation("jpeg_read_scanlines(max_lines=%s) called at scanline %s returned %s and wrote through scanlines[%s], a row it was not given: %s"
                       % (o.get("max"), o.get("at"), o.get("ret"), o.get("row"), describe(line, level)), rep,
                       signature="rows-beyond-max_lines:%s:fancy=%s" % (level, "0" if k.get("fast") == "1" else "1"))
+        return True
+    if impl.startswith("segv buf=99"):
+        ctx.violation("jpeg_read_scanlines delivered more rows than remain in the image (read past the end of the row-pointer array, which has "
+                      "min(max_lines, output_height - output_scanline) entries and ends at a guard page): %s" % describe(line, level), rep,
+                      signature="rows-beyond-image:%s:quant=%s:ss=%s" % (kind, k.get("quant", "0"), k.get("ss", "")))
         return True
     if impl.startswith("segv buf=-1"):
         # the fault is NOT on one of the guard pages: the library crashed on its own memory
